@@ -6,3 +6,40 @@ Import ListNotations.
 
 Lemma c_glue_has_no_static_scratch : c_static_mutable_locals = [].
 Proof. reflexivity. Qed.
+
+(* Package-level variables of the Go packages: the only state shared between calls and
+   goroutines besides the arguments.  Every regenerated entry is in the reviewed table below with
+   the reason it cannot make a result depend on other calls. *)
+Inductive state_kind :=
+| InitOnce          (* written only by init() / sync.Once before any API call returns *)
+| ReadOnlyTable     (* never written after package initialisation *)
+| ConcurrentHasher. (* a KMAC128 instance used only through ComputeHash, which works on a copy
+                       of the state (C19 runs it from concurrent goroutines) *)
+Open Scope string_scope.
+Definition reviewed_package_state : list (string * state_kind) :=
+  [ ("./bls.go: blsInstance", InitOnce);
+    ("./bls12381_utils.go: g1SerHeader", InitOnce);
+    ("./bls12381_utils.go: g2SerHeader", InitOnce);
+    ("./bls12381_utils.go: g1Serialization", InitOnce);
+    ("./bls12381_utils.go: g2PublicKey", InitOnce);
+    ("./bls_multisig.go: popKMAC", ConcurrentHasher);
+    ("./dkg_feldmanvss.go: shareSize", ReadOnlyTable);
+    ("./dkg_feldmanvss.go: verifVectorSize", ReadOnlyTable);
+    ("./dkg_feldmanvssq.go: complaintSize", ReadOnlyTable);
+    ("./dkg_feldmanvssq.go: complaintAnswerSize", ReadOnlyTable);
+    ("./ecdsa.go: p256Instance", InitOnce);
+    ("./ecdsa.go: secp256k1Instance", InitOnce);
+    ("./ecdsa.go: one", ReadOnlyTable);
+    ("./no_cgo.go: blsInstance", InitOnce);
+    ("./sign_test_utils.go: BLS12381Order", ReadOnlyTable);
+    ("hash/keccakf.go: rc", ReadOnlyTable) ].
+
+Lemma package_state_is_reviewed : go_package_state = map fst reviewed_package_state.
+Proof. reflexivity. Qed.
+
+(* in particular the only package-level hasher is the PoP KMAC instance: key generation, signing,
+   verification and the other hashing paths build their hashers per call or take them as arguments *)
+Lemma only_shared_hasher_is_popKMAC :
+  map fst (filter (fun e => match snd e with ConcurrentHasher => true | _ => false end) reviewed_package_state)
+  = ["./bls_multisig.go: popKMAC"].
+Proof. reflexivity. Qed.
